@@ -278,7 +278,7 @@ pub fn binary_dispatch<N: Nondet, const I: usize, const LT: usize>(n: &mut N) {
             pa!("C17", c.kind == HostKind::Apply && c.left.1 == s.d.cells[left].a && c.right.1 == right);
             let t = top(&s.d);
             if c.accepted {
-                pa!("C17", t == s.cells_before && s.d.cells[t].tag == T::Number);
+                pa!("C17", t >= s.cells_before && s.d.cells[t].tag == T::Number);
             } else {
                 pa!("C17", s.d.cells[t].tag == T::Unit);
             }
